@@ -20,7 +20,7 @@ func init() {
 		Level:       "Static rules sound for the named clauses: for every byte offset at which the destination can fail, the error reaches the WriteTo result (all paths of all functions of the persist path are enumerated, not sampled); every cancellation poll returns ErrClosed. Not a verdict on the correctness of a completed file.",
 		Explanation: "Static, path-quantified error discipline of the persist path. ERR-FLOW (go/cfg + go/types abstract walk) shows that in every function reachable from Segment.WriteTo, Merger.WriteTo and the builder's section writers every error-returning call is accounted for on every control-flow path, so a non-nil error from a write at ANY byte offset propagates to the WriteTo result; FLUSH-CHECKED (SSA dominance) shows every possibly-successful return of the two WriteTo methods is dominated by a checked bufio Flush; CLOSED-RETURNS-ERR shows every isClosed poll returns a non-nil error on its true edge; WRITE-CHANNEL enumerates the write sites. Decides clause 1 for every failure offset under the bufio sticky-error assumption; for clause 2 it decides that the only outcomes are ErrClosed or the normal completion path.",
 		NotCovered:  "that a completed file is correct (C02/C04); destination writers that violate io.Writer (short write with nil error)",
-		Uses:        []RuleUse{{"ERR-FLOW", "PERSIST"}, {"FLUSH-CHECKED", ""}, {"CLOSED-RETURNS-ERR", ""}, {"WRITE-CHANNEL", ""}},
+		Uses:        []RuleUse{{"DATA-COPY-COMPLETE", ""}, {"ERR-FLOW", "PERSIST"}, {"FLUSH-CHECKED", ""}, {"CLOSED-RETURNS-ERR", ""}, {"WRITE-CHANNEL", ""}},
 	})
 
 	prop(&Property{
@@ -28,9 +28,9 @@ func init() {
 		Title:       "A failed storage read is reported and never wedges the segment",
 		Technique:   "static analysis: SSA lockset dataflow (must-release on every return), dominance of every Data.Read result use by its error test, go/cfg error-flow walk over all read-reachable functions",
 		Level:       "Static rules; the lock clause is decided: on every path of every function that takes the segment mutex the lock is released before return, so no fault sequence can leave it held. Every one of the Data.Read call sites is shown to use its slice only behind err == nil and every read error is shown to propagate or be explicitly tolerated. Not a verdict on promptness in the sense of time.",
-		Explanation: "LOCK-RELEASE (path-set lockset dataflow over SSA blocks, defer-aware) proves every return of every locking function releases the mutex; NO-CALLBACK-UNDER-LOCK proves nothing re-entrant runs while it is held; READ-CHECKED (dominator tree) proves the slice of each segment.Data.Read is used only on the nil edge of its error test; ERR-FLOW over the functions reachable from the read API proves every error-returning call is accounted for on every path (returned, wrapped, sentinel, sticky field) with one listed exemption; STATE-AFTER-FALLIBLE treats each chunk loader as a transaction on the reader's cache: on every path to a possibly-failing return (path-sensitive over the CFG, helper methods followed into, storage starting to fail between two reads of one call included) either nothing of the cached chunk was touched - field stores, element stores through the doc-value header, the freq/norm reader switched before the location reader - or the cache was declared empty on that path, so a failed load is retried rather than leaving half a chunk that a later call takes for loaded. MEMO-COMMIT proves a remembered key (`if key != last { load }`) is stored only after the fallible loads it stands for, in the same round. CACHE-AFTER-CHECK requires that a value from a fallible call is published into a Segment-held cache only on the path where its error was tested nil, so a failed load cannot poison later calls.",
+		Explanation: "LOCK-RELEASE (path-set lockset dataflow over SSA blocks, defer-aware) proves every return of every locking function releases the mutex; NO-CALLBACK-UNDER-LOCK proves nothing re-entrant runs while it is held; READ-CHECKED (dominator tree) proves the slice of each segment.Data.Read is used only on the nil edge of its error test; ERR-FLOW over the functions reachable from the read API proves every error-returning call is accounted for on every path (returned, wrapped, sentinel, sticky field) with one listed exemption; STATE-AFTER-FALLIBLE treats each chunk loader as a transaction on the reader's cache: on every path to a possibly-failing return (path-sensitive over the CFG, helper methods followed into, storage starting to fail between two reads of one call included) either nothing of the cached chunk was touched - field stores, element stores through the doc-value header, the freq/norm reader switched before the location reader - or the cache was declared empty on that path, so a failed load is retried rather than leaving half a chunk that a later call takes for loaded. DATA-COPY-COMPLETE proves Segment.WriteTo reports success only where the number of bytes copied out of the (possibly file-backed) data equals its length. MEMO-COMMIT proves a remembered key (`if key != last { load }`) is stored only after the fallible loads it stands for, in the same round. CACHE-AFTER-CHECK requires that a value from a fallible call is published into a Segment-held cache only on the path where its error was tested nil, so a failed load cannot poison later calls.",
 		NotCovered:  "promptness in the sense of wall-clock time; panics from corrupt (as opposed to unreadable) data; behaviour of dependencies on failing storage",
-		Uses:        []RuleUse{{"CACHE-AFTER-CHECK", ""}, {"LOCK-RELEASE", ""}, {"NO-CALLBACK-UNDER-LOCK", ""}, {"READ-CHECKED", ""}, {"ERR-FLOW", "READ"}, {"STATE-AFTER-FALLIBLE", ""}, {"MEMO-COMMIT", ""}},
+		Uses:        []RuleUse{{"DATA-COPY-COMPLETE", ""}, {"CACHE-AFTER-CHECK", ""}, {"LOCK-RELEASE", ""}, {"NO-CALLBACK-UNDER-LOCK", ""}, {"READ-CHECKED", ""}, {"ERR-FLOW", "READ"}, {"STATE-AFTER-FALLIBLE", ""}, {"MEMO-COMMIT", ""}},
 	})
 
 	prop(&Property{
@@ -148,7 +148,7 @@ func init() {
 		Level:       "Static rules deciding agreement clauses for every input: the writer and the reader of each of the 11 on-disk records use the same sequence of primitives (kinds, widths, loop structure, byte order; tail-first trailers reversed), every section the loader parses is present on every writer path or skipped under a condition the loader also tests, layout adjacency assumptions hold, the in-memory image is the written bytes, WriteTo returns data+footer length. Partial: identical ANSWERS after load are a value property.",
 		Explanation: "WIRE-AGREE extracts, from the type-checked AST, the source-ordered sequence of wire primitives (binary.Write/PutUvarint/writeUvarints/PutUintN/raw Write vs binary.Uvarint/UintN/raw Data.Read) of each writer and reader region with loops as nested units and compares the 11 pairs (builder and merger writers must also agree with each other; footer fields must correspond by name; parseFooter's offsets must form a contiguous tail of footerLen bytes with widths matching their decodes). SECTION-PRESENT proves by dominance that load() always runs the three section loaders and that each section is written on every successful path of both data-section writers, or skipped exactly on the zero-document branch the loader also guards. ADJACENCY, MEM-IMAGE and LEN-RETURN pin the implicit layout assumptions, the builder's memory image and the byte counts. EMPTY-SAFE forbids constant indexing of variable-length tables without a length test (empty segments must load and merge).",
 		NotCovered:  "identical answers after load (value property); file-backed vs memory-backed look-ahead near the end of data (layout arithmetic)",
-		Uses:        []RuleUse{{"TRAILER-ROLES", ""}, {"EMPTY-SAFE", ""}, {"WIRE-AGREE", ""}, {"SECTION-PRESENT", ""}, {"ADJACENCY", ""}, {"MEM-IMAGE", ""}, {"LEN-RETURN", ""}, {"TAIL-READ-BOUNDED", ""}, {"DV-SECTION-COMPLETE", ""}, {"PER-FIELD-COMPLETE", ""}, {"ESCAPE-FRESH", ""}},
+		Uses:        []RuleUse{{"DATA-COPY-COMPLETE", ""}, {"TRAILER-ROLES", ""}, {"EMPTY-SAFE", ""}, {"WIRE-AGREE", ""}, {"SECTION-PRESENT", ""}, {"ADJACENCY", ""}, {"MEM-IMAGE", ""}, {"LEN-RETURN", ""}, {"TAIL-READ-BOUNDED", ""}, {"DV-SECTION-COMPLETE", ""}, {"PER-FIELD-COMPLETE", ""}, {"ESCAPE-FRESH", ""}},
 	})
 	prop(&Property{
 		ID:          "C10",
